@@ -59,7 +59,7 @@ class JSErr(Exception):
 
 
 class Fx:
-    """Object with a side-effecting valueOf: effect in {'D' detach, 'Z' resize 0, 'S' resize 4, 'G' resize 16}."""
+    """Object with a side-effecting valueOf: effect in {'D' detach, 'Z' resize 0, 'S' resize 4, 'G' resize 16, 'P' resize 5, 'Q' resize 13}."""
     __slots__ = ("effect", "ret")
 
     def __init__(self, effect, ret):
@@ -435,6 +435,10 @@ class World:
                 self.resize(4.0)
             elif e == "G":
                 self.resize(16.0)
+            elif e == "P":
+                self.resize(5.0)
+            elif e == "Q":
+                self.resize(13.0)
             elif e == "N":
                 pass
             else:
